@@ -655,7 +655,7 @@ MUTANTS = [
     {'name': 'tempfile-flush-dropped', 'file': NX, 'rule': 'R3',
      'find': "            f1.write(graph_string)\n            f1.flush()\n            graph = self._read_from_file(f1.name)", 'replace': "            f1.write(graph_string)\n            graph = self._read_from_file(f1.name)"},
     {'name': 'graphid-stamp-dropped', 'file': NX, 'rule': 'R4',
-     'find': '                    temp_graph.nodes[n][ABCPropertyGraph.GRAPH_ID] = graph_id\n                self.start_id', 'replace': '                self.start_id'},
+     'find': '                    temp_graph.nodes[n][ABCPropertyGraph.GRAPH_ID] = graph_id\n                # check this graph_id', 'replace': '                # check this graph_id'},
     {'name': 'extract-loses-node-data', 'file': NX, 'rule': 'R4',
      'find': '                for n in graph_nodes:\n                    # merge node dictionaries\n                    ret.nodes[n].update(self.graphs.nodes[n])\n', 'replace': ''},
     {'name': 'json-writer-reader-key-mismatch', 'file': NX, 'rule': 'R5',
